@@ -5,12 +5,20 @@ from shapes import S1, S2
 U = ["rcgen::CertificateParams::write_key_usage", "rcgen::KeyUsagePurpose::to_u16", "rcgen::write_x509_extension", "yasna::DERWriter::write_bitvec_bytes"]
 
 
-def ku_queries(prefix, check, tier):
-    qs = [Query(name=f"{prefix}_ku_bits", body=f"    units::ku_bits({check});", unwind=14, family="ku_bits", stubs=S1, functions=U, timeout=900,
-                shape="symbolic 9-bit mask: all 511 non-empty key-usage subsets through the real key-usage extension writer")]
-    for n in ((2,) if tier == "quick" else (1, 2, 3)):
-        qs.append(Query(name=f"{prefix}_ku_seq_{n}", body=f"    units::ku_sequence({n}, {check});", unwind=14, family="ku_sequence", stubs=S1,
-                        functions=U, timeout=900, shape=f"{n} arbitrary key-usage purposes in arbitrary order, duplicates included"))
+def ku_queries(prefix, check, tier, seed=0):
+    import random
+    masks = [0x8000 >> i for i in range(9)] + [0xff80, 0x0080 | 0x8000, 0x0600, 0xfe00]
+    if tier == "thorough":
+        masks = [m << 7 for m in range(1, 512)]
+    else:
+        rnd = random.Random(seed)
+        masks += [rnd.randrange(1, 512) << 7 for _ in range(3)]
+    masks = sorted(set(masks))
+    qs = [Query(name=f"{prefix}_ku_bits_{m:04x}", body=f"    units::ku_bits({m:#06x}, {check});", unwind=24, family="ku_bits", stubs=S1, functions=U,
+                field_sens=64, timeout=600,
+                shape=f"key-usage subset {m:#06x} (bit 15 = digitalSignature ... bit 7 = decipherOnly) as a list with repeats and both orders") for m in masks]
+    qs.append(Query(name=f"{prefix}_ku_to_u16", body="    units::ku_to_u16();", unwind=12, family="ku_to_u16", functions=["rcgen::KeyUsagePurpose::to_u16"],
+                    field_sens=64, shape="symbolic purpose: its bit is 0x8000 >> index"))
     return qs
 
 
@@ -80,5 +88,6 @@ def from_oid_queries(prefix, tier):
                   shape=f"every OID of {n} arcs (arcs symbolic u64): Ok(entry) iff it is one of the six registered signature OIDs") for n in ns]
 
 
-def queries(tier):
-    return ku_queries("c02", 1, tier) + cidr_queries("c02") + name_unit_queries("c02")
+def queries(tier, seed=0):
+    # (otherName SANs and directoryName subtrees are not tractable for CBMC even as units - see DESIGN.md; engine M covers their structure)
+    return ku_queries("c02", 1, tier, seed) + cidr_queries("c02")
